@@ -1443,8 +1443,8 @@ func (r *Runtime) checkStdArrayObj(obj *Object) *arrayObject {
 }
 
 func (r *Runtime) checkStdArrayObjWithProto(obj *Object) *arrayObject {
-	if arr := r.checkStdArrayObj(obj); arr != nil {
-		if p1, ok := arr.prototype.self.(*arrayObject); ok && p1.propValueCount == 0 {
+	if arr := r.checkStdArrayObj(obj); arr != nil && arr.prototype != nil {
+		if p1, ok := arr.prototype.self.(*arrayObject); ok && p1.propValueCount == 0 && p1.prototype != nil {
 			if p2, ok := p1.prototype.self.(*baseObject); ok && p2.prototype == nil {
 				p2.ensurePropOrder()
 				if p2.idxPropCount == 0 {
